@@ -348,6 +348,15 @@ func TestC04TCP(t *testing.T) {
 	})
 }
 
+// TestC10TCP: the server's end of a stream connection keeps framing after a refused ConnectionBind
+// (frames written behind it in the same segment are answered) and the TCP world's other requests,
+// written in arbitrary company, are each answered once.
+func TestC10TCP(t *testing.T) {
+	runTCPProp(t, "C10", false, func(st *Stats) bool {
+		return has(st, "tcp:refused-bind-with-a-request-behind-it")
+	})
+}
+
 // TestC02TCP: inbound peer connections are announced only for permitted senders, only to the owner.
 func TestC02TCP(t *testing.T) {
 	runTCPProp(t, "C02", false, func(st *Stats) bool {
